@@ -31,6 +31,14 @@ _MUT_ELSE = ("            # must add an extra lease record\n"
              "        assert f.tell() == offset\n"
              "        f.write(self._schema.lease_serializer.serialize(lease_info))\n")
 
+_SEL = ("        for i,lease in enumerate(leases):\n"
+        "            if lease.is_cancel_secret(cancel_secret):\n"
+        "                leases[i] = None\n")
+_MUT_TEST = ("        add_extra_lease = False\n"
+             "        if lease_number < 4:\n"
+             "            offset = self.HEADER_SIZE + lease_number * self.LEASE_SIZE\n"
+             "        elif (lease_number-4) < num_extra_leases:\n")
+
 # ---- C29.7 / C29.8: buffered file objects and the publishing rename
 _WSD = ("        with open(self.home, 'rb+') as f:\n"
         "            real_offset = self._data_offset+offset\n"
@@ -226,6 +234,89 @@ MUTANTS = [
       edits=[(IMM, _BW_WRITE, _FILL + _BW_WRITE)]),
     M("vanish-no-publishing-rename", IMM, _RENAME, "        shutil.copyfile(self.incominghome, self.finalhome)\n",
       "ANALYSIS-ERROR"),
+    # ---- gap review (mutation sweep survivors)
+    # C29.2: which leases cancel_lease drops
+    M("cancel-drops-non-matching-leases", IMM, _SEL,
+      "        for i,lease in enumerate(leases):\n"
+      "            if not lease.is_cancel_secret(cancel_secret):\n"
+      "                leases[i] = None\n", "C29.2"),
+    M("cancel-drops-unconditionally", IMM, _SEL,
+      "        for i,lease in enumerate(leases):\n"
+      "            leases[i] = None\n"
+      "            if lease.is_cancel_secret(cancel_secret):\n", "C29.2"),
+    M("cancel-blanks-neighbour", IMM, _SEL,
+      "        for i,lease in enumerate(leases):\n"
+      "            if lease.is_cancel_secret(cancel_secret):\n"
+      "                leases[i - 1] = None\n", "C29.2"),
+    M("benign-cancel-selection-continue", IMM, _SEL,
+      "        for slot, candidate in enumerate(leases):\n"
+      "            if not candidate.is_cancel_secret(cancel_secret):\n"
+      "                continue\n"
+      "            if True:\n"
+      "                leases[slot] = None\n", None),
+    M("benign-cancel-selection-comprehension", IMM,
+      "            leases = [l for l in leases if l] # remove the cancelled leases\n",
+      "            leases = [l for l in leases if l]\n"
+      "            leases = [l for l in leases if not l.is_cancel_secret(cancel_secret)]\n", None),
+    # C29.3: what is removed at start-up
+    M("incoming-join-arguments-swapped", SRV,
+      "        self.incomingdir = os.path.join(sharedir, 'incoming')",
+      "        self.incomingdir = os.path.join('incoming', sharedir)", "C29.3"),
+    M("incoming-is-the-share-directory", SRV,
+      "        self.incomingdir = os.path.join(sharedir, 'incoming')",
+      "        self.incomingdir = os.path.join(sharedir, '')", "C29.3"),
+    M("incoming-rebound-after-cleaning", SRV,
+      "        self._clean_incomplete()\n        fileutil.make_dirs(self.incomingdir)",
+      "        self._clean_incomplete()\n        self.incomingdir = os.path.join(sharedir, 'incoming', 'tmp')\n"
+      "        fileutil.make_dirs(self.incomingdir)", "C29.3"),
+    M("partial-upload-outside-incoming", SRV,
+      "            incominghome = os.path.join(self.incomingdir, si_dir, \"%d\" % shnum)",
+      "            incominghome = os.path.join(self.sharedir, si_dir, \"%d.partial\" % shnum)", "C29.3"),
+    M("benign-incoming-hoisted", SRV,
+      "        self.incomingdir = os.path.join(sharedir, 'incoming')",
+      "        incoming_name = 'incoming'\n        incoming = os.path.join(sharedir, incoming_name)\n"
+      "        self.incomingdir = incoming", None),
+    M("benign-incominghome-inlined", SRV,
+      "                bw = BucketWriter(self, incominghome, finalhome,",
+      "                bw = BucketWriter(self, os.path.join(self.incomingdir, si_dir, str(shnum)), finalhome,", None),
+    # C29.4: the data region between the count field and the lease area
+    M("data-overlaps-first-lease-record", IMM,
+      "        self._data_offset = 0xc\n", "        self._data_offset = 13\n", "C29.4"),
+    M("data-starts-inside-header", IMM,
+      "        self._data_offset = 0xc\n", "        self._data_offset = 0x8\n", "C29.4"),
+    M("new-share-lease-area-inside-data", IMM,
+      "            self._lease_offset = max_size + 0x0c\n", "            self._lease_offset = max_size\n", "C29.4"),
+    M("benign-layout-constants-rewritten", IMM,
+      "            self._lease_offset = max_size + 0x0c\n", "            self._lease_offset = 12 + max_size\n", None,
+      edits=[(IMM, "        self._data_offset = 0xc\n", "        header_size = struct.calcsize(\">LLL\")\n"
+                                                      "        self._data_offset = header_size\n")]),
+    # C29.6: when and by how much the extra-lease count grows
+    M("mutable-count-raised-for-header-slots", MUT,
+      "        if add_extra_lease:\n", "        if not add_extra_lease:\n", "C29.6"),
+    M("mutable-count-raised-for-existing-slot", MUT, _MUT_TEST,
+      "        add_extra_lease = False\n"
+      "        if lease_number < 4:\n"
+      "            offset = self.HEADER_SIZE + lease_number * self.LEASE_SIZE\n"
+      "        elif (lease_number-4) >= num_extra_leases:\n", "C29.6"),
+    M("mutable-count-raised-by-two", MUT,
+      "            self._write_num_extra_leases(f, num_extra_leases+1)\n",
+      "            self._write_num_extra_leases(f, num_extra_leases+2)\n", "C29.6"),
+    M("mutable-flag-set-before-the-test", MUT,
+      "        add_extra_lease = False\n        if lease_number < 4:\n",
+      "        add_extra_lease = lease_number >= 4\n        if lease_number < 4:\n", "C29.6"),
+    M("benign-mutable-slot-test-rewritten", MUT, _MUT_TEST,
+      "        add_extra_lease = False\n"
+      "        if lease_number < 4:\n"
+      "            offset = self.HEADER_SIZE + lease_number * self.LEASE_SIZE\n"
+      "        elif num_extra_leases > lease_number - 4:\n", None,
+      edits=[(MUT, "            self._write_num_extra_leases(f, num_extra_leases+1)\n",
+              "            grown = 1 + num_extra_leases\n            self._write_num_extra_leases(f, grown)\n")]),
+    M("benign-mutable-count-guarded-without-flag", MUT,
+      "        if add_extra_lease:\n",
+      "        if lease_number >= 4 and (lease_number-4) >= num_extra_leases:\n", None),
+    M("benign-mutable-count-from-slot-number", MUT,
+      "            self._write_num_extra_leases(f, num_extra_leases+1)\n",
+      "            self._write_num_extra_leases(f, lease_number - 3)\n", None),
     # ---- benign
     M("benign-inline-new-count", IMM, _ADD,
       "            encoded = struct.pack(self._lease_count_format, 1 + num_leases)\n"
